@@ -104,8 +104,13 @@ class MWorld:
         return out
 
     def new_id(self, name):
-        self.next_id += 1
-        return "id%d-%s" % (self.next_id, "".join(c for c in name if c.isalnum())[:8])
+        # never hand out an id the working tree or the basis already uses (a world rebuilt from a real tree restarts
+        # its counter; a collision is a harness artefact: DuplicateFileId on a legal add)
+        while True:
+            self.next_id += 1
+            i = "id%d-%s" % (self.next_id, "".join(c for c in name if c.isalnum())[:8])
+            if i not in self.ents and not (self.basis and i in self.basis):
+                return i
 
     def changes(self):
         """Canonical change set working vs basis: {id: (old_key|None, new_key|None)}."""
